@@ -2169,6 +2169,20 @@ class SQLModel:
             if subsql_add_query_name
             else None,
         )
+        if is_union:
+            # an operand's own ORDER BY / LIMIT would bind to the whole compound select: keep them in a sub-select
+            def enclose_suffix(sub_sql, substr):
+                sub_suffix = getattr(sub_sql.near_sql, "suffix", None)
+                if (sub_suffix is None) or (len(sub_suffix) < 1):
+                    return substr
+                return (
+                    ["SELECT", sql_format_options.sql_indent + "*", "FROM", "("]
+                    + [sql_format_options.sql_indent + si for si in substr]
+                    + [") " + sub_sql.near_sql.quoted_query_name]
+                )
+
+            substr_1 = enclose_suffix(near_sql.sub_sql1, substr_1)
+            substr_2 = enclose_suffix(near_sql.sub_sql2, substr_2)
         sql = (
             [sql_start]
             + self._indent_and_sep_terms(
